@@ -116,10 +116,9 @@ def as_form(A, form):
 
 
 def points_form_relation(rec, shape, P, got, safe, dist, size, sig, k, planar=False):
-    """Metamorphic relation over the form of the query points: the same batch handed over as a nested list, a nested tuple
-    or a float32 array (rounded; only points farther than 1e-5 of the scale from the boundary are compared, rounding moves
-    a point by at most 1e-7 of it; for 2-D shapes only points whose z is exactly representable) must get the answers the
-    float64 ndarray got."""
+    """Metamorphic relation over the form of the query points: the same batch handed over as a nested list or a nested
+    tuple must get the answers the float64 ndarray got (at the points clear of the boundary), and a float32 array must get
+    the answers of the float64 array holding exactly the same rounded values (everywhere)."""
     P = np.asarray(P, dtype=float)
     k = k % 4
     if k == 0:
@@ -129,12 +128,18 @@ def points_form_relation(rec, shape, P, got, safe, dist, size, sig, k, planar=Fa
     elif k == 2:
         alt, robust, name = tuple(tuple(float(x) for x in r) for r in P), safe, "tuple"
     else:
+        # float32: compared with what the float64 array holding exactly the same (rounded) values gets - the same
+        # mathematical input, so the answers must agree everywhere, however close to the boundary the points are
         alt, name = P.astype(np.float32), "float32"
-        robust = safe & (dist > 1e-5 * max(float(size), float(np.max(np.abs(P), initial=0.0)))) & np.all(np.isfinite(alt), axis=1)
-        if planar and P.shape[1] == 3:
-            # 2-D shapes: `dist` is the in-plane distance and the shapes test the third coordinate against their plane with a
-            # tight tolerance, so only points whose z survives the rounding exactly are compared
-            robust = robust & (alt[:, 2].astype(float) == P[:, 2])
+        if not np.all(np.isfinite(alt)):
+            return
+        ref = call(shape.is_inside, alt.astype(np.float64))
+        if isinstance(ref, Raised):
+            ga = call(shape.is_inside, alt)
+            rec.label("ptsform:float32")
+            rec.check(isinstance(ga, Raised) and ga.type == ref.type, "points_form_equals_ndarray", dict(sig, form=name), got=repr(ga)[:100])
+            return
+        got, robust = np.asarray(ref), np.ones(len(P), dtype=bool)
     ga = call(shape.is_inside, alt)
     ok = not isinstance(ga, Raised) and np.asarray(ga).shape == (len(P),) and np.array_equal(np.asarray(ga)[robust], np.asarray(got)[robust])
     rec.label("ptsform:" + name)
